@@ -42,13 +42,16 @@ func buildPatchExpiredSelectionPredicate(sw swamp.Swamp, filters *hydrapb.Filter
 
 	candidates := collectBucketCandidates(sw, plan.Hints)
 	set := candidateKeySet(candidates)
-	residual := plan.Residual
 
+	// The candidate set is computed before the selection lock is taken: it
+	// is only a fast-reject. The whole filter (indexed leg included) is
+	// evaluated on the live record under the lock, so a record that left
+	// the indexed value in between is not claimed.
 	return func(t treasure.Treasure) bool {
 		if _, in := set[t.GetKey()]; !in {
 			return false
 		}
-		return evaluateNativeFilterGroup(t, residual)
+		return evaluateNativeFilterGroup(t, filters)
 	}, nil
 }
 
